@@ -402,13 +402,17 @@ def analyse(s, res, strict_order=False):
         # ParameterStatus the backend sent): `SET k TO 'v';...` as a simple Query, its reply is consumed by pgcat (C12)
         own_sql = {f[1] for f in split_frames(bytes.fromhex(sent[i]["hex"]))[0] if f[0] == "Q"}
         mine = [m for m in mine if not (m["tag"] == "Q" and m["raw"][5:9] == b"SET " and m["raw"][5:] not in own_sql)]
-        groups, rest = groups_of(mine)
-        if rest:
-            return ("exchange %d: the server received %s without a Sync" % (i, "".join(m["tag"] for m in rest)), stats)
+        terminated = any(m["tag"] == "X" for m in mine)            # pgcat closing a server connection is not a relayed message
+        mine = [m for m in mine if m["tag"] != "X"]
         cfs, junk = split_frames(bytes.fromhex(sent[i]["hex"]))
         raw = bytes.fromhex(recv[i].get("raw") or "")
         if recv[i]["outcome"] != "ok":
-            return ("exchange %d: client recv ended %s after %d bytes" % (i, recv[i]["outcome"], len(raw)), stats)
+            sent_by_backend = sum(len(m["out"]) for m in mine)
+            return ("exchange %d (client %s, %s): client recv ended %s after %d bytes, the backend had written %d for it%s" % (i, e.get("c", "c"), "".join(f[0] for f in cfs), recv[i]["outcome"], len(raw), sent_by_backend,
+                                                                                                                             "; pgcat closed the server connection" if terminated else ""), stats)
+        groups, rest = groups_of(mine)
+        if rest:
+            return ("exchange %d: the server received %s without a Sync" % (i, "".join(m["tag"] for m in rest)), stats)
         rfs, rjunk = split_frames(raw)
         # the client's batches and the reply frames of each
         batches, cur = [], []
